@@ -753,7 +753,7 @@ func (h *harness) oblige(c *Case, ev *evaluated) {
 					groupBad = true
 				}
 			}
-			run.Oblige("rule group "+g.name+" (differential only): implementation verdict vs Spec."+g.name+" rules, not yet a Lean theorem", "oracle", 1, !groupBad, failWhat(ev))
+			run.Oblige("rule group "+g.name+" (differential only): implementation verdict vs the Lean specification's rule, no model = spec theorem yet", "oracle", 1, !groupBad, failWhat(ev))
 		}
 		if ev.lean.HasModel {
 			run.Oblige("correspondence: model verdict + multiset of (message, locations) = implementation's (membership for map-iteration picks)", "correspondence", 1, fk != "correspondence", failWhat(ev))
@@ -768,16 +768,9 @@ type ruleGroup struct {
 }
 
 var differentialGroups = []ruleGroup{
-	{"operations", map[string]bool{"opNameUnique": true, "loneAnonymous": true, "opTypeSupported": true, "singleRootSubscription": true},
-		func(m string) bool {
-			return strings.Contains(m, "operation") || strings.HasPrefix(m, "subscriptions may only")
-		}},
+	{"single-root-subscription", map[string]bool{"singleRootSubscription": true},
+		func(m string) bool { return strings.HasPrefix(m, "subscriptions may only") }},
 	{"overlapping-fields", map[string]bool{"fieldsMerge": true}, isMergeClass},
-	{"fragment-cycles", map[string]bool{"noFragmentCycles": true}, func(m string) bool { return m == "fragment cycle detected" }},
-	{"variables", map[string]bool{"variablesUnique": true, "variablesAreInputTypes": true, "variableUsesDefined": true, "variablesUsed": true, "variableUsagesAllowed": true},
-		func(m string) bool {
-			return strings.Contains(m, "variable") || m == "unknown type" || strings.HasSuffix(m, "is not an input type") || m == "no type info for location type"
-		}},
 }
 
 func failWhat(ev *evaluated) string {
